@@ -4,7 +4,7 @@
    Gen/IgnoreGen.v); specification: Model/IgnoreSpec.v (abstract files, render, spec, the domain predicates). *)
 From TL Require Import Lib.Base Lib.GenTypes Gen.IgnoreGen Model.PyStr Model.Ignore Model.IgnoreSpec Model.IgnoreRun
      Actual.IgnoreActual Proofs.IgnoreMain Proofs.IgnoreCor Proofs.IgnoreRules Proofs.IgnorePipes Proofs.IgnoreLines Proofs.IgnoreRegress.
-From TL Require Model.IgnorePat Actual.IgnorePatActual Proofs.IgnorePatFacts.
+From TL Require Model.CollectStr Model.CollectSpec Model.IgnorePat Actual.IgnorePatActual Proofs.CollectIgnoreStr Proofs.IgnorePatFacts.
 
 (* 1. Main theorem.  For every quirk vector whose two remaining deviating flags are off (flags_off: q_splitlines_unicode,
       q_start_rules_from_code; the other five flags - repaired by the fix: commits b7d1dc0, 71ade39, 9b79df3 - may read the source's own
@@ -222,6 +222,63 @@ Theorem C04_tl_table : forall lang,
   pipeline_of "collection_pipeline" lang = PSharedTl tl_needles /\ pipeline_of "stateless_class" lang = PSharedTl tl_needles.
 Proof. exact tl_table. Qed.
 Print Assumptions C04_tl_table.
+
+(* 15. magic-numbers and print-statements in files with `//` comments (.ts): after the shared parser, a needle spelling the linter's own
+       name in brackets, the generic test (`// thailint: ignore` not followed by a bracket before the next `//`) or `// noqa`.  For every
+       rule the linter's own name names, on noqa-free files of the domain, that is exactly the specification. *)
+Theorem C04_magic_ts_pipeline_exact : forall q a v r, rule_matches r "magic-numbers" = true ->
+  file_ok a = true -> target_ok a v = true -> nonempty r = true -> avoids q a = true -> noqa_free a = true ->
+  suppressed q (pipeline_of "magic_numbers" "ts") (render a) v r = spec false a v r.
+Proof. exact magic_ts_pipeline_exact. Qed.
+Print Assumptions C04_magic_ts_pipeline_exact.
+
+Theorem C04_print_ts_pipeline_exact : forall q a v r, rule_matches r "print-statements" = true ->
+  file_ok a = true -> target_ok a v = true -> nonempty r = true -> avoids q a = true -> noqa_free a = true ->
+  suppressed q (pipeline_of "print_statements" "ts") (render a) v r = spec false a v r.
+Proof. exact print_ts_pipeline_exact. Qed.
+Print Assumptions C04_print_ts_pipeline_exact.
+
+(* 16. The exact extent of the finding own_line_check_only[method_property]: on noqa-free files of the domain method-property honours
+       ANY same-line directive, whatever it names, and nothing else (no next-line, block or file-level directive). *)
+Theorem C04_method_property_own_line_extent : forall q a v r,
+  file_ok a = true -> target_ok a v = true -> avoids q a = true -> noqa_free a = true ->
+  suppressed q (pipeline_of "method_property" "py") (render a) v r =
+  match nth_error a (v - 1) with Some (LSame _ _ _) => true | _ => false end.
+Proof. exact (fun q a v r => own_line_pipeline_exact q a v r). Qed.
+Print Assumptions C04_method_property_own_line_extent.
+
+(* 17. `*suffix` patterns (`*.generated.py` ...) in a linter-level `ignore:` list, for every absolute normalised path whose components
+       contain no `*` and every suffix of literal characters: the linters whose matcher is `Path.match(pattern) or pattern in str(path)`
+       (magic-numbers, print-statements, method-property, collection-pipeline: Gen.linter_matchers) silence exactly the files the
+       documented glob semantics names; the substring matchers (srp, unwrap-abuse, clone-abuse, blocking-async) never honour such a
+       pattern.  (PurePath.match is the model of Model/IgnorePat.v on top of C14's fnmatch model - validated, not proved about CPython.) *)
+Theorem C04_linter_suffix_pattern_exact : forall comps s,
+  CollectIgnoreStr.comps_ok comps -> IgnorePatFacts.suffix_ok s -> IgnorePatFacts.star_free comps = true ->
+  IgnorePat.lmatch IgnorePat.MPathOrSub (String CollectStr.slash (CollectStr.pjoin comps)) (CollectSpec.render (CollectSpec.PSuffix s))
+  = CollectSpec.spec_match (CollectSpec.PSuffix s) comps.
+Proof. exact IgnorePatFacts.path_or_sub_suffix_exact. Qed.
+Print Assumptions C04_linter_suffix_pattern_exact.
+
+Theorem C04_linter_suffix_pattern_never_for_substring : forall comps s, IgnorePatFacts.star_free comps = true ->
+  IgnorePat.lmatch IgnorePat.MSub (String CollectStr.slash (CollectStr.pjoin comps)) (CollectSpec.render (CollectSpec.PSuffix s)) = false.
+Proof. exact IgnorePatFacts.sub_suffix_never. Qed.
+Print Assumptions C04_linter_suffix_pattern_never_for_substring.
+
+Theorem C04_linter_matcher_kinds :
+  forallb (fun p => match IgnorePatActual.matcher_of p with IgnorePat.MPathOrSub => true | _ => false end)
+          ["magic_numbers"; "print_statements"; "method_property"; "collection_pipeline"] = true
+  /\ forallb (fun p => match IgnorePatActual.matcher_of p with IgnorePat.MSub => true | _ => false end)
+             ["srp"; "unwrap_abuse"; "clone_abuse"; "blocking_async"] = true
+  /\ forallb (fun p => match IgnorePatActual.matcher_of p with IgnorePat.MNever => true | _ => false end)
+             ["nesting"; "performance"; "lbyl"; "stateless_class"] = true.
+Proof. exact linter_matcher_kinds. Qed.
+Print Assumptions C04_linter_matcher_kinds.
+
+(* 18. The exact extent of the findings no_inline_support[...]: for these linters no text whatsoever suppresses anything. *)
+Theorem C04_no_inline_support_extent : forall q pkg lang content v r, In pkg no_inline_support ->
+  suppressed q (pipeline_of pkg lang) content v r = false.
+Proof. exact no_inline_never. Qed.
+Print Assumptions C04_no_inline_support_extent.
 
 (* non-vacuity: a file of the domain with all four forms, both styles, a bare directive and spelled-out rule lists, on which the
    specification suppresses some (line, rule) pairs and not others, and on which the FAITHFUL model (the vector claimed for the current
